@@ -389,19 +389,19 @@ func vfRunSched(t *testing.T, r *rep.R, s vfSched, ci int) {
 						fp := filepath.Join(rv.storage, chName, tr.name, fmt.Sprintf("%d%s", nr, tr.ext))
 						fb, err := os.ReadFile(fp)
 						if err != nil {
-							lead := "track-lead<=1"
+							// how far is this track ahead of the newest number the MPD lists? (the receiver deletes n-window when a track
+							// uploads n, whatever the MPD still lists: being two or more ahead of the listed edge is the recorded finding)
+							lead := "uploader-ahead-of-listed-edge<=1"
 							{
-								mx, mn := int64(-1), int64(1<<62)
-								for _, x := range newestOf {
-									if x > mx {
-										mx = x
-									}
-									if x < mn {
-										mn = x
-									}
+								cnt := int64(0)
+								for _, sy := range as.ST.Timeline.S {
+									cnt += int64(sy.R) + 1
 								}
-								if mx-mn >= 2 {
-									lead = "track-lead>=2"
+								lastListed := int64(*as.ST.StartNumber) + cnt - 1
+								for i, x := range tracks {
+									if x == tr && newestOf[i]-int64(s.startNr)-lastListed >= 2 {
+										lead = "uploader-ahead-of-listed-edge>=2"
+									}
 								}
 							}
 							// was the segment delivered (and accepted) before? then it was deleted while still listed; else it was never there
